@@ -556,7 +556,8 @@ def write_history(root, gens, numbers=None):
     chain = []
     for i, g in enumerate(gens):
         n = numbers[i] if numbers else i + 1
-        day = f"2020-{1 + i // 28:02d}-{1 + i % 28:02d}"
+        j = len(gens) - 1 - i  # creation dates run backwards (a clock that was set wrongly): only the numbers give the order
+        day = f"2020-{1 + j // 28:02d}-{1 + j % 28:02d}"
         name = f"{n:04d}_{folder}_{day}_000000Z.mhl"
         x = ['<?xml version="1.0" encoding="UTF-8"?>', '<hashlist version="2.0" xmlns="urn:ASC:MHL:v2.0">']
         x += ["  <creatorinfo>", f"    <creationdate>{day}T00:00:00+00:00</creationdate>", "    <hostname>synthetic</hostname>"]
